@@ -659,6 +659,31 @@ def namesOk (proj : Project) : Bool :=
     | some n => !isSupersededName n
     | none => true
 
+mutual
+/-- the names bound by import statements inside class bodies, with the class they are bound in -/
+def classImportsStmt (m : Nat) : List Name → Stmt → List (Site × Name)
+  | cp, .classDef n _ body => classImports m (cp ++ [n]) body
+  | cp, st => if cp.isEmpty then [] else
+      match st.defName with
+      | some _ => []
+      | none => (explicitNames st).map fun x => ((m, cp), x)
+def classImports (m : Nat) : List Name → List Stmt → List (Site × Name)
+  | _, [] => []
+  | cp, st :: rest => classImportsStmt m cp st ++ classImports m cp rest
+end
+
+def classImportList (proj : Project) : List (Site × Name) :=
+  (List.range proj.length).flatMap fun m => classImports m [] (bodyOf proj m)
+
+/-- the sub-class of `WF` for which soundness is proved for INHERITED members too: a name bound by an
+import inside a class body is bound by imports of that one class body only, and it is not the name
+of a definition or of a non-root module.  (With globally unique definition names this makes the
+definer of every class attribute unique, so the ORDER of the MRO does not matter.) -/
+def classImportsUnique (proj : Project) : Bool :=
+  let L := classImportList proj
+  let E := (entities proj).map (fun S => (sitePath proj S).getLast?)
+  L.all fun a => (isRootName proj a.2 || !E.contains (some a.2)) && L.all fun b => a.2 != b.2 || a.1 == b.1
+
 /-- **WF**: the property's quantifier — an acyclic multi-package project (`rank` is a topological
 index), names of definitions globally unique, each name bound once per scope — plus the
 restrictions under which the theorems are proved: imports stay inside the project, no `__all__`
